@@ -495,11 +495,33 @@ def edge_build(spec, env):
     shape = tuple((min(gen.nlimbs(x), 8) if isinstance(x, int) else (gen.nlimbs(x[0]) - pl if isinstance(x, tuple) else 0)) for x in v if isinstance(x, (int, tuple)))
     return runner.Case(cmds, check, 2, ('edge', name, shape[:3]))
 
-def specs(rng, tier, wid, nw, env): return edge_specs(rng, tier, wid, nw, env)
+def specs(rng, tier, wid, nw, env):
+    for sp in edge_specs(rng, tier, wid, nw, env): yield sp
+    # library-allocated result blocks of every length: gmp_asprintf (cases shared with C18), mpz_get_str / mpq_get_str / mpf_get_str with a
+    # NULL buffer (the driver frees them with strlen+1 through the recording allocator)
+    k = 0
+    for L0 in range(1, 1301, 20):
+        k += 1
+        if k % nw == wid: yield ('aslen', L0, min(L0 + 19, 1300), rng.getrandbits(48))
+    for L0 in range(1, 700, 10):
+        k += 1
+        if k % nw == wid: yield ('strlen', L0, L0 + 9, rng.getrandbits(48))
 def build(spec, env):
     if isinstance(spec, dict):
         sc = spec['script']
         return runner.Case(sc, lambda rep: [], len(sc))
+    if spec[0] == 'aslen':
+        import c18
+        return c18.build(tuple(spec), env)
+    if spec[0] == 'strlen':
+        r = random.Random(spec[-1]); cmds = []
+        for L in range(spec[1], spec[2] + 1):
+            base = r.choice([2, 8, 10, 16, 36, 62, -16])
+            z = (abs(base) ** (L - 1) + r.randrange(abs(base) ** (L - 1))) * r.choice([1, -1]) if L > 1 else r.randint(1, abs(base) - 1)
+            qd = r.getrandbits(r.randint(2, 100)) | 1
+            cmds += ['z Z1 %s' % hx(z), 'c mpz_get_str 0 #%d Z1' % base, 'q Q1 %s %s' % (hx(z), hx(qd)), 'c mpq_get_str 0 #%d Q1' % base,
+                     api.fcmd('F1', 64 * ((L * 6) // 64 + 2), (z, r.randint(-70, 70))), 'c mpf_get_str 0 & #%d #%d F1' % (abs(base), r.choice([0, L, max(1, L // 2)]))]
+        return runner.Case(cmds, lambda rep: [], 3 * (spec[2] - spec[1] + 1), ('strlen', spec[1]))
     return edge_build(tuple(spec), env)
 
 def main(argv):
